@@ -11,6 +11,7 @@
 -/
 import Proofs.SysEventsC12
 import Proofs.SysEventsC12b
+import Proofs.SysEventsMore
 namespace Hap.Sys
 
 /-- **C12_recipients** (safety, every history, every next step). Whenever a step writes an EVENT
@@ -70,6 +71,21 @@ theorem C12_immediate (c : Cfg) (tr : List Ev) (p : ObjId) (x : Cid) (v : Val) :
   intro s h hi
   exact (invQ_run c tr _ (invQ_init c) p).imm x (by rw [h]; rfl) hi
 
+/-- **C12_every_subscriber_served** (the "reach" direction: nobody who is owed the change is left
+    out). After every history, when the application changes the value of `x` to `v`
+    (`char.set_value(v)`, value really changes), every registered connection whose address is subscribed
+    to `x` afterwards has `(x, v)` queued and a flush pending (the coalescing timer, or a `call_soon`
+    callback for button types), and is under the quiescence obligation (`since`). With
+    `C12_recipients` (only verified, subscribed, non-originating connections are written to) this is
+    "exactly the subscribed other controllers". -/
+theorem C12_every_subscriber_served (c : Cfg) (hc : c.fix13 = true) (tr : List Ev) (x : Cid) (v : Val) :
+    let s := (run c (init c) tr).1
+    let s' := (step c s (Ev.appSet x v)).1
+    s.value x ≠ some v → ∀ q, registered s' q → subscribed s' x (s'.obj q).addr →
+      aget (s'.obj q).queue x = some v ∧ pendingFlush s' q ∧ (s'.obj q).since x = true := by
+  intro s s' hch q hr hsub
+  exact appSet_serves_all c s x v (invA_run c hc tr _ (invA_init c)) hch q hr hsub
+
 /-- "activity has stopped" on the loop: no coalescing timer and no `call_soon` flush is pending on
     any connection -/
 def Quiescent (s : St) : Prop := ∀ p, p < s.nobj → ¬ pendingFlush s p
@@ -93,15 +109,16 @@ def C12_quiescent_statement (c : Cfg) : Prop :=
 
 /-- **C12_quiescent_partial.** The statement holds for every history in which the application
     changes values on the loop thread only (`NoWorker`: no `AppSetWorker`; for worker-thread changes
-    the full statement is false, see `C12_quiescent_fails`) and no characteristic has a setter
-    callback (`hcb`; with callbacks the statement is expected to hold but is not proved — the
-    recipient / immediate / no-orphan theorems above do cover callbacks). Proved from
-    the invariant
+    the full statement is false, see `C12_quiescent_fails`), **for every configuration of setter
+    callbacks** in the alphabet (echo the written value, set a different value, set another
+    characteristic, raise) satisfying `CbOK`: the repair for raising callbacks is applied (`fixRaise`;
+    without it see `C12_legacy_failed_write_counterexample`) and state-changing callbacks sit on
+    characteristics that are not always-null. Proved from the invariant
     `since p x → queue p x ⊆ {value x} ∧ (learned p x = value x ∨ (queue p x = value x ∧ (timer p ∨ soon p)))`
     (`InvL`), i.e. DESIGN's `owed(c,x) → queue c x = some (value x) ∧ (timer c ∨ soon c)` with
     `owed c x := since c x ∧ learned c x ≠ value x`. Needs the C12 repair (`fix12`). -/
 theorem C12_quiescent_partial (c : Cfg) (h12 : c.fix12 = true) (h13 : c.fix13 = true)
-    (hcb : ∀ x, c.cb x = Callback.none)
+    (hcb : CbOK c)
     (tr : List Ev) (hr : ReuseOK c (init c) tr) (hw : NoWorker tr) :
     let s := (run c (init c) tr).1
     Quiescent s → ∀ p x, (s.obj p).since x = true → c.nul x = false →
@@ -125,7 +142,7 @@ theorem C12_drain (c : Cfg) (s : St) : Quiescent (run c s (drainAll s)).1 :=
     without worker-thread changes respecting the reuse hypothesis, followed by the drain, every
     connection subscribed to `x` since its last change has learned the current value of `x`. -/
 theorem C12_quiescent_after_drain_partial (c : Cfg) (h12 : c.fix12 = true) (h13 : c.fix13 = true)
-    (hcb : ∀ x, c.cb x = Callback.none) (tr : List Ev)
+    (hcb : CbOK c) (tr : List Ev)
     (hr : ReuseOK c (init c) tr) (hw : NoWorker tr) :
     let s := (run c (init c) tr).1
     let s' := (run c s (drainAll s)).1
@@ -230,26 +247,42 @@ instance (s : St) : Decidable (Quiescent s) := by unfold Quiescent; infer_instan
 instance (s : St) : Decidable (QuiescentFull s) := by unfold QuiescentFull; infer_instance
 instance (s : St) (p : ObjId) : Decidable (registered s p) := by unfold registered; infer_instance
 
+/-- the code without design/fixes/C12-stale-handoff.patch -/
+def legacyHandCfg : Cfg := { exCfg12 with fixHand := false }
+
 /-- the witness: everything has stopped, A has been subscribed all along, its only EVENT carried 10,
-    the value is 20 (fully repaired model otherwise: `fix12`, `fix13`, `fixResub` all on) -/
+    the value is 20 (all other repairs on) -/
 theorem C12_worker_handoff_counterexample :
-    let r := run exCfg12 (init exCfg12) workerTrace
-    ReuseOK exCfg12 (init exCfg12) workerTrace ∧ QuiescentFull r.1 ∧
+    let r := run legacyHandCfg (init legacyHandCfg) workerTrace
+    ReuseOK legacyHandCfg (init legacyHandCfg) workerTrace ∧ QuiescentFull r.1 ∧
     r.2 = [Out.resp 0 0 204 Body.none, Out.resp 1 0 204 Body.none, Out.event 0 0 [(0, 10)]] ∧
     (r.1.obj 0).since 0 = true ∧ (r.1.obj 0).learned 0 = some 10 ∧ r.1.value 0 = some 20 := by
   decide
 
-/-- **C12_quiescent_fails.** The full statement is false for the code as it is: a change handed
-    over from a worker thread can be overtaken by a controller write and is then delivered last.
-    Replayed on the real code (real thread, `call_soon_threadsafe`) by the harness; signature
-    `C12:worker-change-overtaken-by-newer-change`. -/
-theorem C12_quiescent_fails : ¬ C12_quiescent_statement exCfg12 := by
+/-- **C12_quiescent_fails.** The full statement is false for the code without the stale-hand-off
+    repair: a change handed over from a worker thread can be overtaken by a controller write and is
+    then delivered last. Replayed on the real code (real thread, `call_soon_threadsafe`) by the
+    harness; signature `C12:worker-change-overtaken-by-newer-change`. -/
+theorem C12_quiescent_fails : ¬ C12_quiescent_statement legacyHandCfg := by
   intro h
   have w := C12_worker_handoff_counterexample
   have := h workerTrace w.1 w.2.1 0 0 w.2.2.2.1 (by decide)
   have e1 := this.2.2
   rw [w.2.2.2.2.1, w.2.2.2.2.2] at e1
   cases e1
+
+/-- With the repair (`fixHand`: the loop drops a hand-off whose captured value is no longer the value
+    of the characteristic) the same history ends with A having learned 20, the current value: the
+    overtaken 10 is never sent. (The full statement `C12_quiescent_statement` for the repaired
+    configuration — every history WITH worker-thread changes — is not proved: the invariant `InvL`
+    would have to be weakened by "or a hand-off carrying the current value is pending" and carried
+    through every event again. It is checked by the differential run and the oracle only.) -/
+theorem C12_worker_handoff_repaired :
+    let r := run exCfg12 (init exCfg12) workerTrace
+    ReuseOK exCfg12 (init exCfg12) workerTrace ∧ QuiescentFull r.1 ∧
+    r.2 = [Out.resp 0 0 204 Body.none, Out.resp 1 0 204 Body.none, Out.event 0 0 [(0, 20)]] ∧
+    (r.1.obj 0).since 0 = true ∧ (r.1.obj 0).learned 0 = some 20 ∧ r.1.value 0 = some 20 := by
+  decide
 
 /-! ### setter callbacks inside `client_update_value` -/
 
@@ -270,6 +303,46 @@ theorem C12_callback_behaviour :
        Ev.data 0 (Req.put 1 none (some 50) false), Ev.timerFire 0, Ev.timerFire 1]).2
       = [Out.resp 0 0 204 Body.none, Out.resp 1 0 204 Body.none, Out.resp 0 0 204 Body.none,
          Out.event 0 0 [(1, 7)], Out.event 1 0 [(1, 7)]] := by
+  decide
+
+/-- the callback configuration of the examples satisfies the hypothesis of the quiescence theorems -/
+example : CbOK cbCfg := ⟨rfl, fun x hx => by
+  have : x = 2 := by simpa [cbCfg, exCfg12] using hx
+  subst this; exact Or.inl rfl⟩
+
+/-- non-vacuity of `C12_quiescent_partial` with callbacks: A (writer) and B subscribed to 1, A writes
+    50, the callback clamps to 7; after the flushes everything is quiet, both have been subscribed all
+    along and both last learned 7 = the value (A's own write of 50 was superseded by the event) -/
+example :
+    let r := run cbCfg (init cbCfg)
+      [Ev.connect 0, Ev.verify 0, Ev.connect 1, Ev.verify 1,
+       Ev.data 0 (Req.put 1 (some true) none false), Ev.data 1 (Req.put 1 (some true) none false),
+       Ev.data 0 (Req.put 1 none (some 50) false), Ev.timerFire 0, Ev.timerFire 1]
+    (r.1.obj 0).since 1 = true ∧ (r.1.obj 1).since 1 = true ∧ ¬ pendingFlush r.1 0 ∧ ¬ pendingFlush r.1 1 ∧
+    (r.1.obj 0).learned 1 = some 7 ∧ (r.1.obj 1).learned 1 = some 7 ∧ r.1.value 1 = some 7 := by
+  decide
+
+/-! ### a setter callback that raises -/
+
+def raiseCfg : Cfg := { exCfg12 with cb := fun x => if x = 0 then Callback.raise else Callback.none }
+def legacyRaiseCfg : Cfg := { raiseCfg with fixRaise := false }
+
+/-- B is subscribed to 0; A writes 0 := 20 and the setter callback raises -/
+def raiseTrace : List Ev :=
+  [Ev.connect 0, Ev.verify 0, Ev.connect 1, Ev.verify 1, Ev.data 1 (Req.put 0 (some true) none false),
+   Ev.appSet 0 10, Ev.timerFire 1, Ev.data 0 (Req.put 0 none (some 20) false)]
+
+/-- Without the repair the failed write (answered 207 / -70402) leaves 20 stored and nobody is told:
+    everything is quiet, B has been subscribed since the last notified change and last learned 10,
+    the value is 20. With the repair the value is 10 again. Replayed on the real code by the harness
+    (signature `C12:failed-write-changed-value-unannounced`). -/
+theorem C12_legacy_failed_write_counterexample :
+    let r := run legacyRaiseCfg (init legacyRaiseCfg) raiseTrace
+    r.2 = [Out.resp 1 0 204 Body.none, Out.event 1 0 [(0, 10)], Out.resp 0 0 207 (Body.multi [(0, -70402)])] ∧
+    ¬ pendingFlush r.1 0 ∧ ¬ pendingFlush r.1 1 ∧ (r.1.obj 1).since 0 = true ∧
+    (r.1.obj 1).learned 0 = some 10 ∧ r.1.value 0 = some 20 ∧
+    (run raiseCfg (init raiseCfg) raiseTrace).1.value 0 = some 10 ∧
+    (run raiseCfg (init raiseCfg) raiseTrace).2 = r.2 := by
   decide
 
 /-! ### several queries in one PUT (scene writes, also across bridged accessories) -/
@@ -294,6 +367,16 @@ example :
     let r := run exCfg12 (init exCfg12) staleTrace
     r.2 = [Out.resp 0 0 204 Body.none, Out.resp 0 0 204 Body.none] ∧
     ¬ pendingFlush r.1 0 ∧ (r.1.obj 0).since 0 = true ∧ (r.1.obj 0).learned 0 = some 20 ∧ r.1.value 0 = some 20 := by
+  decide
+
+instance (s : St) (x : Cid) (a : Addr) : Decidable (subscribed s x a) := by unfold subscribed; infer_instance
+
+/-- non-vacuity of `C12_every_subscriber_served`: two registered subscribers, the value changes -/
+example :
+    let s := (run exCfg12 (init exCfg12)
+      [Ev.connect 0, Ev.verify 0, Ev.connect 1, Ev.verify 1, Ev.data 0 (Req.put 0 (some true) none false),
+       Ev.data 1 (Req.put 0 (some true) none false)]).1
+    s.value 0 ≠ some 9 ∧ registered s 0 ∧ registered s 1 ∧ subscribed s 0 (s.obj 0).addr ∧ subscribed s 0 (s.obj 1).addr := by
   decide
 
 /-- an EVENT message is really produced (two subscribers, one writes, the other is told) -/
